@@ -386,3 +386,33 @@ for _p, _m in {'C07': {'tx_ok:ICMP4SendEchoRequest': 85, 'tx_ok:ICMP6SendEchoReq
 # every view covered by the C02 getter comparison must have been compared
 PROPS['C02']['min_obs'] = dict(PROPS['C02']['min_obs'])
 PROPS['C02']['min_obs']['quick'] = dict(PROPS['C02']['min_obs'].get('quick', {}), **{'getters_compared:ARP': 480, 'getters_compared:DHCP4': 1180, 'getters_compared:DNS': 692, 'getters_compared:Ether': 460, 'getters_compared:HopByHopExtensionHeader': 623, 'getters_compared:ICMP6NeighborSolicitation': 479, 'getters_compared:ICMP6Redirect': 373, 'getters_compared:ICMP6RouterAdvertisement': 692, 'getters_compared:ICMPEcho': 534, 'getters_compared:IP4': 799, 'getters_compared:IP6': 533, 'getters_compared:RRCP': 1012, 'getters_compared:SNAP': 373, 'getters_compared:TCP': 961, 'getters_compared:UDP': 320})
+
+# workload features added after the fifth and sixth round of seeded changes: each must actually have been exercised
+for _p, _m in {'C04': {'notification_channel_full': 30}, 'C05': {'histories_with_unread_notification_channel': 30}, 'C07': {'tx_ok:dhcp-reply': 10000},
+               'C09': {'close_bubble_quiet_periods': 8}, 'C11': {'dhcp_pools_crowded': 80}, 'C12': {'dhcp_pools_crowded': 80},
+               'C13': {'router_requests_sent_unicast': 70}, 'C15': {'headers_completed_concurrently': 100000}, 'C16': {'views_checked_on_padded_frames': 600},
+               'C17': {'dns_messages_over_1k': 300, 'dns_compression_pointers_beyond_1k': 200}, 'C18': {'restart_offer_probes': 700}}.items():
+    PROPS[_p]['min_obs'] = dict(PROPS[_p]['min_obs'])
+    PROPS[_p]['min_obs']['quick'] = dict(PROPS[_p]['min_obs'].get('quick', {}), **_m)
+
+# rule text: what the later rounds added to the workloads
+_RULE_ADD = {
+    'C04': ' Every sixteenth random history runs on a LAN of 136 further stations whose owner never reads the notification channel (channel full): tracking and invariants are judged as always, the notification trace is not.',
+    'C07': ' The DHCP histories of C11/C12 (request lists absent / empty / with the router but not the mask, capture, restarts, exhausted pools) run as a sub-stream: every reply of the server goes through the same rules (mask before router among them).',
+    'C15': ' IPv4 headers are completed a second time over the same bytes (same and shorter payload), and by four goroutines at once, each in its own buffer.',
+    'C16': ' Upper layer views must end with the decoded packet (IPv4 total length, IPv6 payload length: rule beyond-packet) and Payload() must start at an offset the reference decoder allows (rule Payload:offset).',
+    'C20': ' Short arrays (1..3 elements) are appended at every fill level of the last 96 bytes and compared exactly when the reference leaves 8 bytes (48 for address lists); arrays with unset elements (nil address, empty string) are judged structurally (brackets, set elements in order, neighbours intact).',
+    'C13': ' Requests for the router arrive by broadcast and unicast (to this host, to the real router).',
+    'C19': ' A third of the IPv4 peers send datagrams with IPv4 options whose bytes mimic the awaited echo reply.',
+    'C09': ' The race-built close bubbles contain quiet periods of several virtual minutes (NIC monitor, purge and hunt timers run between packets).',
+    'C10': ' Router advertisements also come from a second Ethernet address of the same router (with and without a source link layer option) and carry prefix lengths 0..128.',
+    'C11': ' A fourth logical client shares the MAC of client 1 under its own client identifier; small pools are exhausted by stations with static addresses (op crowd); parameter request lists vary.',
+    'C17': ' One response in eight exceeds a kilobyte, with compression pointers beyond offset 1023.',
+    'C18': ' After the restart every bound address is asked for by a new network card and by a second client identifier on the holder\'s card.',
+    'C02': ' IPv6 frames with bytes after the payload length are in the don\'t-care zone for acceptance; when accepted, every view must end at 40 + payload length. TCP reserved bits are random.',
+    'C03': ' Every layer of a third of the UDP chains and of the IPv4 sweep is completed twice.',
+}
+_RULE_ADD['C12'] = _RULE_ADD['C11']
+_RULE_ADD['C05'] = _RULE_ADD['C06'] = _RULE_ADD['C04']
+for _p, _t in _RULE_ADD.items():
+    PROPS[_p]['rule'] = PROPS[_p]['rule'] + _t
